@@ -49,6 +49,7 @@ TRUSTED = [
 ]
 
 TARGETS = ['X', 'X1', '__all__', '1']
+NEW_TARGETS = ['N', 'X2']
 TASKS = ['t', 't2']
 ALGS = ['A', 'A2', '1']
 SVS = ['sv', 'sv_', '1']
@@ -102,6 +103,7 @@ class Runner:
         S = self.S
         S.fresh()
         ref = {}      # identity -> {run: payload}
+        self.old = {}  # identity -> payloads that were overwritten or removed later
         problems, obs, mops = [], [], []
         blob_ids = {}
         for op in ops:
@@ -132,7 +134,8 @@ class Runner:
                 rid, tn, task, alg, sv, vn = op[1:]
                 for ident, runs in ref.items():
                     if (ident[0], ident[1], ident[2][0], ident[3][0], ident[4][0]) == (tn, task, alg, sv, vn):
-                        runs.pop(rid, None)
+                        if rid in runs:
+                            self.old.setdefault(ident, []).append(runs.pop(rid))
                 return ['ok'], [(['remove', rid] + [nm(x) for x in op[2:]], ['ok'])]
             if kind == 'update':
                 return self.update(op, ref, problems, blob_ids)
@@ -141,16 +144,34 @@ class Runner:
             if kind == 'dump':
                 o = c08.Runner.step(self, op, None, problems, None, 'direct')
                 return o, [(['dump'], o)]
-        except RuntimeError:
-            return ['err', 'closed'], [(self.model_probe(op), ['err', 'closed'])]
-        except KeyError:
-            return ['err', 'key'], [(self.model_probe(op), ['err', 'key'])]
+        except RuntimeError as e:
+            if 'before open' in str(e):
+                return ['err', 'closed'], [(self.model_probe(op), ['err', 'closed'])]
+            return self.raised(op, e, problems)
+        except KeyError as e:
+            if kind == 'remove':
+                return ['err', 'key'], [(self.model_probe(op), ['err', 'key'])]
+            return self.raised(op, e, problems)
+        except Exception as e:  # pylint: disable=broad-except
+            return self.raised(op, e, problems)
         raise ValueError(f'unknown op {op!r}')
+
+    def raised(self, op, e, problems):
+        """the code under test raised inside one operation: an observation and a finding, not a crash
+        (on a reachable open catalogue update / load / add / remove of known names never raise)"""
+        S = self.S
+        if S.locks:
+            S.locks = 0
+            S.context.db_lock = False
+        problems.append(('C06:operation-raises', f'{op[0]}{tuple(op[1:5])} raised {type(e).__name__}: {str(e)[:120]}'))
+        return ['err', 'raised', type(e).__name__], [(self.model_probe(op), ['err', 'raised'])]
 
     @staticmethod
     def model_probe(op):
         """the model operation that shows the same error (first value of an update / load)"""
         k = op[0]
+        if k in ('open', 'close', 'dump'):
+            return [k]
         if k == 'add':
             return ['add', nm(op[1])]
         if k == 'remove':
@@ -186,7 +207,10 @@ class Runner:
             blob = rq.value[1]
             blob_ids.setdefault(blob, len(blob_ids) + 1)
             ident = (tn, task, (alg, tuple(av)), (sv, tuple(svv)), (v[0], tuple(v[1])))
-            ref.setdefault(ident, {})[run] = mk_payload(v[2])
+            cell = ref.setdefault(ident, {})
+            if run in cell:
+                self.old.setdefault(ident, []).append(cell[run])
+            cell[run] = mk_payload(v[2])
             key = list(rq.keyset)
             flags.append([key, bool(exists)])
             if nv != ('.'.join([str(run), tn, task, alg, sv, v[0]]), not exists):
@@ -216,13 +240,16 @@ class Runner:
                 if got is before[(sv, v[0])]:
                     touched = None
                     mops.append((head, ['ok', None]))
-                else:
+                elif gi < len(gets):
                     rq, blob = gets[gi]
                     gi += 1
                     touched = got
                     mops.append((head, ['ok', list(rq.keyset), blob_ids.get(blob, -1)]))
+                else:
+                    touched = got  # replaced without asking the foreman for the primary entry
+                    mops.append((head, ['ok', 'no-get-request']))
                 out.append(None if touched is None else repr(getattr(touched, 'payload', '<no payload>')))
-                self.judge(op, ident, run, m, want, touched, ref, problems)
+                self.judge(op, ident, run, m, want, touched, ref, problems, self.old.get(ident, []))
         # the metric state vector: walked by the real _load after the algorithm's own state vectors
         name, ver, keys = self.msv
         for k, kv in keys:
@@ -230,9 +257,19 @@ class Runner:
         return ['ok', out], mops
 
     @staticmethod
-    def judge(op, ident, run, m, want, touched, ref, problems):
+    def judge(op, ident, run, m, want, touched, ref, problems, old=()):
         """the property on one loaded value"""
         where = f'load(run={run}) of {ident}'
+
+        def same(a, b):
+            return type(a) is type(b) and a == b
+
+        if touched is not None and not (m and same(getattr(touched, 'payload', '<no payload>'), want)) \
+                and any(same(getattr(touched, 'payload', '<no payload>'), p) for p in old):
+            problems.append(('C06:load-stale', f'{where}: got a payload of this identity that was overwritten or '
+                                               f'removed before the load: {getattr(touched, "payload", None)!r}'
+                                               + (f', stored now {want!r}' if m else ', nothing is stored now')))
+            return
         if not m:
             if touched is not None:
                 problems.append(('C06:load-foreign', f'{where}: nothing stored for this identity, yet the value was '
@@ -302,11 +339,43 @@ def gen_history(r, counter):
             out.append([s, r.choice(ve), vals])
         return out
 
+    def shape_of(u):
+        return [[s, sver, [[v[0], v[1]] for v in vals]] for s, sver, vals in u[6]]
+
+    def rewrite_of(u):
+        """the same (run, target, identity) cells with other contents"""
+        out = []
+        for s, sver, vals in u[6]:
+            nv = []
+            for v in vals:
+                counter[0] += 1
+                nv.append([v[0], v[1], ['rewritten', counter[0]]])
+            out.append([s, sver, nv])
+        return u[:6] + [out]
+
+    tg = list(tg)
+    fresh_targets = [t for t in TARGETS + NEW_TARGETS if t not in tg]
     ops = [['open']]
     for _ in range(r.choice([3, 5, 8, 12])):
         x = r.random()
         if x < 0.42:
-            ops.append(['update', r.choice(runs), r.choice(tg), r.choice(tk), r.choice(al), r.choice(ve), svs(True)])
+            u = ['update', r.choice(runs), r.choice(tg), r.choice(tk), r.choice(al), r.choice(ve), svs(True)]
+            ops.append(u)
+            if r.random() < 0.35:
+                # load -> store the SAME cells again with other contents -> load (regressions rewrite run 0;
+                # a re-run rewrites its run id): the second load must see the new contents
+                ops.extend([['load', u[1], u[2], u[3], u[4], u[5], shape_of(u)], rewrite_of(u),
+                            ['load', r.choice([u[1], 99]), u[2], u[3], u[4], u[5], shape_of(u)]])
+        elif x < 0.50 and fresh_targets and any(o[0] == 'update' for o in ops):
+            # a target introduced by dawgie.db.add() (not by its first update), then used like the others
+            t = fresh_targets.pop(r.randrange(len(fresh_targets)))
+            u0 = r.choice([o for o in ops if o[0] == 'update'])
+            ops.extend([['add', t], ['load', u0[1], t, u0[3], u0[4], u0[5], shape_of(u0)]])
+            un = rewrite_of(u0)
+            un[2] = t
+            ops.extend([un, ['load', u0[1], u0[2], u0[3], u0[4], u0[5], shape_of(u0)],
+                        ['load', u0[1], t, u0[3], u0[4], u0[5], shape_of(u0)]])
+            tg.append(t)
         elif x < 0.78:
             ops.append(['load', r.choice(runs + [7]), r.choice(tg), r.choice(tk), r.choice(al), r.choice(ve), svs(False)])
         elif x < 0.88:
@@ -318,8 +387,7 @@ def gen_history(r, counter):
     # read back what was stored (same shape, so that most values are hit), then the tables
     ups = [o for o in ops if o[0] == 'update']
     for u in r.sample(ups, min(len(ups), 3)):
-        shape = [[s, sver, [[v[0], v[1]] for v in vals]] for s, sver, vals in u[6]]
-        ops.append(['load', r.choice(runs + [99]), u[2], u[3], u[4], u[5], shape])
+        ops.append(['load', r.choice(runs + [99]), u[2], u[3], u[4], u[5], shape_of(u)])
     ops.append(['dump'])
     return ops
 
@@ -356,6 +424,37 @@ CORPUS = [
      ['update', 11, '1', 't', '1', V1, [['1', V1, [['1', V1, 'eleven']]]]],
      ['update', 1, '1', 't', '1', V1, [['1', V1, [['1', V1, 'one again']]]]],
      ['load', 1, '1', 't', '1', V1, [['1', V1, [['1', V1]]]]], ['load', 10, '1', 't', '1', V1, [['1', V1, [['1', V1]]]]], ['dump']],
+    # load -> rewrite of the same (run, target, identity) -> load, directly, through the fall-back, across
+    # close/open and after remove + store again (a client-side memo of key -> blob goes stale here)
+    [['open'], ['update', 0, 'X', 't', 'A', V1, [['sv', V1, [['v', V1, 'first']]]]],
+     ['load', 0, 'X', 't', 'A', V1, [['sv', V1, [['v', V1]]]]],
+     ['update', 0, 'X', 't', 'A', V1, [['sv', V1, [['v', V1, 'second']]]]],
+     ['load', 0, 'X', 't', 'A', V1, [['sv', V1, [['v', V1]]]]], ['load', 5, 'X', 't', 'A', V1, [['sv', V1, [['v', V1]]]]],
+     ['close'], ['open'], ['update', 0, 'X', 't', 'A', V1, [['sv', V1, [['v', V1, 'third']]]]],
+     ['load', 0, 'X', 't', 'A', V1, [['sv', V1, [['v', V1]]]]], ['remove', 0, 'X', 't', 'A', 'sv', 'v'],
+     ['load', 0, 'X', 't', 'A', V1, [['sv', V1, [['v', V1]]]]],
+     ['update', 0, 'X', 't', 'A', V1, [['sv', V1, [['v', V1, 'fourth']]]]],
+     ['load', 0, 'X', 't', 'A', V1, [['sv', V1, [['v', V1]]]]], ['dump']],
+    # three targets stored by one task (3 target ids, 1 task id), then a target introduced by dawgie.db.add():
+    # nothing is stored for it, its update must not touch the others, also after close/open
+    [['open'], ['update', 1, 'X', 't', 'A', V1, [['sv', V1, [['v', V1, 'of X']]]]],
+     ['update', 1, 'X1', 't', 'A', V1, [['sv', V1, [['v', V1, 'of X1']]]]],
+     ['update', 1, '1', 't', 'A', V1, [['sv', V1, [['v', V1, 'of 1']]]]], ['add', 'N'],
+     ['load', 1, 'N', 't', 'A', V1, [['sv', V1, [['v', V1]]]]], ['load', 4, 'N', 't', 'A', V1, [['sv', V1, [['v', V1]]]]],
+     ['update', 1, 'N', 't', 'A', V1, [['sv', V1, [['v', V1, 'of N']]]]],
+     ['load', 1, 'X', 't', 'A', V1, [['sv', V1, [['v', V1]]]]], ['load', 1, 'X1', 't', 'A', V1, [['sv', V1, [['v', V1]]]]],
+     ['load', 1, '1', 't', 'A', V1, [['sv', V1, [['v', V1]]]]], ['load', 1, 'N', 't', 'A', V1, [['sv', V1, [['v', V1]]]]],
+     ['close'], ['open'], ['add', 'X2'], ['load', 1, 'X1', 't', 'A', V1, [['sv', V1, [['v', V1]]]]],
+     ['load', 1, 'X2', 't', 'A', V1, [['sv', V1, [['v', V1]]]]], ['load', 1, 'N', 't', 'A', V1, [['sv', V1, [['v', V1]]]]], ['dump']],
+    # more tasks than targets when the target is added
+    [['open'], ['update', 1, 'X', 't', 'A', V1, [['sv', V1, [['v', V1, 'x t']]]]],
+     ['update', 1, 'X', 't2', 'A', V1, [['sv', V1, [['v', V1, 'x t2']]]]], ['add', 'N'],
+     ['update', 1, 'X1', 't', 'A', V1, [['sv', V1, [['v', V1, 'x1 t']]]]],
+     ['update', 1, '1', 't', 'A', V1, [['sv', V1, [['v', V1, '1 t']]]]],
+     ['load', 1, 'N', 't', 'A', V1, [['sv', V1, [['v', V1]]]]], ['update', 1, 'N', 't', 'A', V1, [['sv', V1, [['v', V1, 'n t']]]]],
+     ['load', 1, '1', 't', 'A', V1, [['sv', V1, [['v', V1]]]]], ['load', 1, 'X1', 't', 'A', V1, [['sv', V1, [['v', V1]]]]],
+     ['close'], ['open'], ['load', 1, '1', 't', 'A', V1, [['sv', V1, [['v', V1]]]]],
+     ['load', 1, 'N', 't', 'A', V1, [['sv', V1, [['v', V1]]]]], ['dump']],
 ]
 
 
@@ -409,7 +508,7 @@ def run(ctx, res):
     counter = [0]
     for ops in CORPUS + c08.file_corpus('C06'):
         found += [(p, ops) for p in check_history(rn, res, ops, 'corpus', lines, pending)]
-    n = 400 if thorough else 48
+    n = 400 if thorough else 40
     for _ in range(n):
         ops = gen_history(r, counter)
         found += [(p, ops) for p in check_history(rn, res, ops, 'random', lines, pending)]
